@@ -214,6 +214,18 @@ def read_list(t, delim, i=0, module=None):
     return i, arr
 
 
+class KGToken(str):
+    """
+    A punctuation lexeme returned by kg_read.  The string literals ";" "(" ")" "{" "}" "]"
+    have the same text but are plain strings, so the parser must not take them for punctuation.
+    """
+    pass
+
+
+def is_token(a, text):
+    return isinstance(a, KGToken) and a == text
+
+
 def kg_read(t, i, read_neg=False, ignore_newline=False, module=None):
     """
     Read a Klong lexeme from string t starting at position i.
@@ -227,7 +239,7 @@ def kg_read(t, i, read_neg=False, ignore_newline=False, module=None):
     if a == '\n':
         a = ';'
     if a in [';', '(', ')', '{', '}', ']']:
-        return i+1, a
+        return i+1, KGToken(a)
     elif cmatch2(t, i, '0', 'c'):
         return read_char(t, i)
     elif a.isnumeric() or (read_neg and (a == '-' and (i+1) < len(t) and t[i+1].isnumeric())):
@@ -245,9 +257,9 @@ def kg_read(t, i, read_neg=False, ignore_newline=False, module=None):
             d = list_to_dict(d)
             return i, KGCall(copy_lambda, args=d, arity=0)
         elif aa == '[':
-            return i+2, ':['
+            return i+2, KGToken(':[')
         elif aa == '|':
-            return i+2, ':|'
+            return i+2, KGToken(':|')
         return i+2, KGOp(f":{aa}", arity=0)
     elif safe_eq(a, '['):
         return read_list(t, ']', i=i+1, module=module)
